@@ -98,7 +98,7 @@ class Flags(object):
         if not (isinstance(c, ast.Call) and isinstance(c.func, ast.Attribute) and c.func.attr == 'pop' and norm(c.func.value) == self.kw and
                 [norm(a) for a in c.args] == [n, d] and not c.keywords):
             return None
-        tab = self.repo.try_fold(gen_iter, self.fi.mod)
+        tab = fold_const(self.fi, gen_iter)
         if isinstance(tab, dict):
             tab = list(tab.items())
         if not isinstance(tab, (tuple, list)) or not all(isinstance(p, (tuple, list)) and len(p) == 2 and isinstance(p[0], str) for p in tab):
@@ -367,6 +367,19 @@ def concat_parts(e):
     return None
 
 
+def fold_const(fi, expr):
+    """Value of a constant expression: literals, module-level constants, and class-level constants read through
+    ``self.NAME`` / ``cls.NAME`` / ``ClassName.NAME``; None when it does not fold."""
+    repo = fi.mod.repo
+    v = repo.try_fold(expr, fi.mod)
+    if v is None and isinstance(expr, ast.Attribute) and isinstance(expr.value, ast.Name) and fi.cls is not None and \
+            expr.value.id in ('self', 'cls', fi.cls.name):
+        owner, val = repo.class_attr(fi.cls, expr.attr)
+        if owner is not None and isinstance(val, ast.AST) and not isinstance(val, (ast.FunctionDef, ast.AsyncFunctionDef)):
+            v = repo.try_fold(val, owner.mod)
+    return v
+
+
 class KwDict(object):
     """Layer model of a keyword dict built by straight-line code before it is passed on with ``**``:
     bottom -> top list of ('caller',) / ('src', text) / ('key', name, value expr, stmt); ``setdefault`` and
@@ -420,6 +433,36 @@ class KwDict(object):
                 return var, st.test.left, b.value
         return None
 
+    def _conditional_writes(self, st, names=None):
+        """``if <test>: d['k'] = v`` (other than the not-in default idiom), possibly inside ``for name in CONSTANTS``: entries
+        that sometimes overwrite whatever the dict held -- [(dict, key, value)]; None when ``st`` is something else."""
+        if isinstance(st, ast.For) and isinstance(st.target, ast.Name) and len(st.body) == 1 and not st.orelse and names is None:
+            consts = fold_const(self.fi, st.iter)
+            if isinstance(consts, (tuple, list)) and all(isinstance(x, str) for x in consts):
+                out = []
+                for x in consts:
+                    sub = self._conditional_writes(st.body[0], (st.target.id, x))
+                    if sub is None:
+                        return None
+                    out.extend(sub)
+                return out
+            return None
+        if isinstance(st, ast.If) and not st.orelse and st.body and all(
+                isinstance(b, ast.Assign) and len(b.targets) == 1 and isinstance(b.targets[0], ast.Subscript) and norm(b.targets[0].value) in self.env
+                for b in st.body):
+            out = []
+            for b in st.body:
+                k = b.targets[0].slice
+                if names is not None and norm(k) == names[0]:
+                    kv = names[1]
+                elif isinstance(k, ast.Constant):
+                    kv = k.value
+                else:
+                    return None
+                out.append((norm(b.targets[0].value), kv, b.value))
+            return out
+        return None
+
     def _build(self, body):
         q = self.fi.qualname
         for st in body:
@@ -433,7 +476,7 @@ class KwDict(object):
                 continue
             if isinstance(st, ast.For) and isinstance(st.target, ast.Name) and len(st.body) == 1 and not st.orelse:
                 # for name in ('a', 'b') / in MODULE_LEVEL_TUPLE: d.setdefault(name, f(name))
-                names = self.fi.mod.repo.try_fold(st.iter, self.fi.mod)
+                names = fold_const(self.fi, st.iter)
                 d = self._default_stmt(st.body[0])
                 if d is not None and norm(d[1]) == st.target.id and isinstance(names, (tuple, list)) and all(isinstance(x, str) for x in names):
                     from ..normalize import Canon
@@ -453,6 +496,13 @@ class KwDict(object):
                     self.env[t] = self._from_expr(v)
                     self.stmts.append(st)
                     continue
+                if isinstance(v, ast.Call) and norm(v.func) == 'dict.fromkeys' and 1 <= len(v.args) <= 2 and not v.keywords:
+                    names = fold_const(self.fi, v.args[0])
+                    if isinstance(names, (tuple, list)) and all(isinstance(x, str) for x in names):
+                        val = v.args[1] if len(v.args) == 2 else ast.copy_location(ast.Constant(value=None), v)
+                        self.env[t] = [('key', x, val, st) for x in names]
+                        self.stmts.append(st)
+                        continue
                 if t in self.env:
                     raise AnalysisError('%s: keyword dict %s re-bound to %s' % (q, t, short(v, 50)))
                 continue
@@ -476,6 +526,12 @@ class KwDict(object):
                         lay.append(('key', k.arg, k.value, st))
                 self.stmts.append(st)
                 continue
+            cw = self._conditional_writes(st)
+            if cw is not None:
+                for var, k, v in cw:
+                    self.env[var].append(('key?', k, v, st))
+                self.stmts.append(st)
+                continue
             # anything else that writes a tracked dict is outside the model
             if not isinstance(st, (ast.FunctionDef, ast.AsyncFunctionDef, ast.ClassDef)):
                 for e in effects_in(ast.Module(body=[st], type_ignores=[]), nested=False):
@@ -495,6 +551,8 @@ class KwDict(object):
         top = None
         for i in range(len(layers) - 1, -1, -1):
             l = layers[i]
+            if l[0] == 'key?' and l[1] == key:
+                return ('conditional', l[2], l[3])      # sometimes overwrites whatever is below (the caller's value too)
             if l[0] == 'key' and l[1] == key:
                 top = i
                 break
@@ -504,6 +562,8 @@ class KwDict(object):
                 # the caller may or may not pass it: look below for the default
                 for j in range(i - 1, -1, -1):
                     m = layers[j]
+                    if m[0] == 'key?' and m[1] == key:
+                        return ('unknown', None, None)
                     if m[0] == 'key' and m[1] == key:
                         return ('default', m[2], m[3])
                     if m[0] in ('src', 'caller'):
@@ -549,6 +609,31 @@ def _is_comp(n):
     return isinstance(n, (ast.ListComp, ast.GeneratorExp)) and len(n.generators) == 1 and not n.generators[0].is_async
 
 
+def _filter_generator(repo, fi, e):
+    """``e`` is a call ``helper(seq)`` of a private generator of the package that yields the elements of its argument, in
+    order, under a condition: (loop variable, [(test, polarity)] under which an element is passed on, seq expression)."""
+    callee = callee_of(repo, fi, e) if isinstance(e, ast.Call) else None
+    if callee is None or not callee.name.startswith('_') or e.keywords or len(e.args) != 1 or isinstance(e.args[0], ast.Starred):
+        return None
+    ps = [p for p in callee.params() if p not in ('self', 'cls')]
+    body = [s_ for s_ in callee.node.body if not (isinstance(s_, ast.Expr) and isinstance(s_.value, ast.Constant))]
+    if len(ps) != 1 or not body or not isinstance(body[0], ast.For) or any(not (isinstance(s_, ast.Return) and s_.value is None) for s_ in body[1:]):
+        return None
+    loop = body[0]
+    ys = [n for n in walk_body(callee.node) if isinstance(n, (ast.Yield, ast.YieldFrom))]
+    if len(ys) != 1 or not isinstance(ys[0], ast.Yield) or not isinstance(loop.target, ast.Name) or norm(ys[0].value) != loop.target.id or \
+            norm(loop.iter) != ps[0] or loop.orelse:
+        return None
+    if any(isinstance(s_, (ast.Break, ast.Return)) for s_ in stmts_of(loop)):
+        return None
+    yst = stmt_of(callee.mod, ys[0])
+    # the loop body does nothing but decide whether to yield
+    for s_ in stmts_of(loop):
+        if not (s_ is yst or isinstance(s_, (ast.If, ast.Continue, ast.Pass))):
+            return None
+    return loop.target.id, list(cfg_of(callee).conds_at_stmt(yst)), e.args[0]
+
+
 def _r10a(rep, app, route):
     ba = app.func('SubApplication.bind_all')
     fl = Flow(ba)
@@ -575,12 +660,23 @@ def _r10a(rep, app, route):
             g = e.generators[0] if _is_comp(e) else None
             if g is not None and isinstance(e.elt, ast.Name) and isinstance(g.target, ast.Name) and e.elt.id == g.target.id:
                 chain_its.append(e)
-                prefilters.append((g.target.id, list(g.ifs)))
+                prefilters.append((g.target.id, [(i, True) for i in g.ifs]))
                 cur, at = g.iter, stmt_of(app, g.iter)
+                continue
+            pf = _filter_generator(rep.repo, ba, e)
+            if pf is not None:
+                prefilters.append(pf[:2])
+                cur = pf[2]
                 continue
             it_text = fl.text(e, at2 if isinstance(at2, ast.AST) else at)
             break
-    ok = it_text == 'self.app.routes' and all(any(x is y for y in chain_its) for x in its)
+    # any other loop / comprehension of the function must not be able to touch the result
+    rets_ = returns_of(ba)
+    rnames = set(n.id for r in rets_ if r.value is not None for n in ast.walk(r.value) if isinstance(n, ast.Name))
+    strangers = [x for x in its if not any(x is y for y in chain_its)]
+    inert = all(not (set(n.id for n in ast.walk(x) if isinstance(n, ast.Name)) & rnames) and
+                not any(isinstance(n, ast.Call) and isinstance(n.func, ast.Attribute) and n.func.attr == 'bind' for n in ast.walk(x)) for x in strangers)
+    ok = it_text == 'self.app.routes' and inert
     rep.check('R10.a', fkey(ba, 'iterates inner routes'), ok, 'walks self.app.routes directly (inner order preserved)' if ok else
               'bind_all does not iterate self.app.routes directly: %s' % (it_text if it_text and it_text != 'self.app.routes' else
                                                                           [short(getattr(x, 'iter', x), 50) for x in its]), app,
@@ -625,8 +721,8 @@ def _r10a(rep, app, route):
         return
     # conditions under which an inner route is left out: the loop's / comprehension's own, plus those of pre-filters
     atoms = []
-    for var, ifs in prefilters:
-        atoms += [(t, p, var) for t, p in expand_conds([(i, True) for i in ifs]) if not isinstance(t, ast.BoolOp)]
+    for var, cs_ in prefilters:
+        atoms += [(t, p, var) for t, p in expand_conds(list(cs_)) if not isinstance(t, ast.BoolOp)]
     if is_loop:
         ast_ = stmt_of(app, appends[0])
         cs = conds(ba, ast_)
